@@ -62,12 +62,14 @@ def colour_menu(O):
 
 
 def plan(tier, seed):
-    pairs = spaces.shape_pairs(4, 3) if tier == "quick" else spaces.shape_pairs(5, 3) + spaces.shape_pairs(4, 4, min_sp=4)
+    # quick: <=4 x <=3 leaves plus few-leaved objects on deeper species trees (4-6 leaves)
+    pairs = (spaces.shape_pairs(4, 3) + spaces.shape_pairs(3, 4, min_sp=4) + spaces.shape_pairs(2, 6, min_sp=5) if tier == "quick"
+             else spaces.shape_pairs(5, 3) + spaces.shape_pairs(4, 4, min_sp=4) + spaces.shape_pairs(3, 6, min_sp=5))
     out = []
     for osh, ssh in pairs:
         k = max(1, spaces.count_assignments(osh, ssh) // 8)
         for i in range(k):
-            out.append({"slice": "tikz:" + ("P4x3" if tier == "quick" else "P5x3+P4x4"), "mode": "tikz", "osh": osh, "ssh": ssh, "part": (i, k)})
+            out.append({"slice": "tikz:" + ("P4x3+P3x4+P2x6" if tier == "quick" else "P5x3+P4x4+P3x6"), "mode": "tikz", "osh": osh, "ssh": ssh, "part": (i, k)})
     lens = (1, 2, 4, 7) if tier == "quick" else (1, 2, 3, 5, 9)
     maxw = 5 if tier == "quick" else 6
     for k in range(0, maxw + 1):
